@@ -150,7 +150,7 @@ let predict (c : string) (obs : string) : string * string * bool =
           | _ -> failwith ("bad form " ^ f)) in
         bit (configured_discard w)) (String.split_on_char ',' forms)) in
       (want, (if obs = want then "ok" else "BAD:cfg:discard_overflow-not-as-written-in-the-config want=" ^ want ^ " got=" ^ obs), true)
-  | [ "ph"; inst; behind; ordinary; episodes ] ->
+  | "ph" :: inst :: behind :: ordinary :: episodes :: ([] | [ _; _ ]) ->
       let i = int_of_string in
       let total = i episodes * (i inst + i behind + i ordinary) and disc = i episodes * i behind in
       let pred = Printf.sprintf "N=%d F=%d D=%d X=%d S=%d" total (total - disc) disc 0 (total - disc) in
@@ -244,6 +244,22 @@ let predict (c : string) (obs : string) : string * string * bool =
             "BAD:pool:tokens-handled-differ-from-the-tokens-of-the-schedule"
           else "ok" in
       (String.concat " " pred, v, n > 1 || List.exists (fun f -> ch f 2 = '1' || ch f 0 = 'D') toks_obs)
+  | [ "comp"; _; segs; offs_case ] ->
+      let (offs, _) = profile_offsets (z_of_int 0) (segments_of segs) in
+      let offs_model = if offs = [] then "-" else String.concat "," (List.map us_string offs) in
+      let ntok = List.length offs in
+      (* on the planned timeline every request is fired at its token's time: never ahead of the profile *)
+      let pred = (if never_ahead_b offs offs then String.make ntok '1' else String.make ntok '0') ^ " c=eq" in
+      let bits = (match ofs with f :: _ -> f | [] -> "") in
+      let cfield = (match List.find_opt (fun f -> String.length f > 2 && String.sub f 0 2 = "c=") ofs with Some f -> f | None -> "c=?") in
+      let v =
+        if offs_model <> offs_case then "BAD:comp:case-offsets-differ-from-the-configured-profile model=" ^ offs_model
+        else if String.contains bits '0' then "BAD:comp:more-requests-fired-than-tokens-of-the-configured-profile-were-due"
+        else if cfield = "c=lt" then "BAD:comp:not-every-token-of-the-profile-fired"
+        else if cfield = "c=gt" then "BAD:comp:more-shots-than-tokens-in-the-profile"
+        else if cfield <> "c=eq" then "BAD:comp:malformed-observation"
+        else "ok" in
+      (pred, v, true)
   | [ "eng"; d; toks; durs ] ->
       let discard = (d = "1") in
       let tl = csv_ms toks in
